@@ -281,6 +281,38 @@ func blockPos(b *ssa.BasicBlock) token.Pos {
 // clause in its contract).  Set by the encoder.
 var closureArgOK func(c *ssa.CallCommon, idx int) bool
 
+// readOnlyCapture: the captured variable (a pointer to the enclosing
+// function's cell) is only ever loaded from inside the closure, or handed to
+// nested closures that do the same.
+func readOnlyCapture(fv ssa.Value, depth int) bool {
+	refs := fv.Referrers()
+	if refs == nil || depth > 4 {
+		return false
+	}
+	for _, r := range *refs {
+		switch x := r.(type) {
+		case *ssa.DebugRef:
+		case *ssa.UnOp:
+			if x.Op != token.MUL {
+				return false
+			}
+		case *ssa.MakeClosure:
+			fn, ok := x.Fn.(*ssa.Function)
+			if !ok {
+				return false
+			}
+			for i, b := range x.Bindings {
+				if b == fv && (i >= len(fn.FreeVars) || !readOnlyCapture(fn.FreeVars[i], depth+1)) {
+					return false
+				}
+			}
+		default:
+			return false
+		}
+	}
+	return true
+}
+
 func isPrivateAlloc(a *ssa.Alloc) bool {
 	var ok func(v ssa.Value, depth int) bool
 	closureOK := func(mc *ssa.MakeClosure) bool {
@@ -340,12 +372,24 @@ func isPrivateAlloc(a *ssa.Alloc) bool {
 					return false
 				}
 			case *ssa.MakeClosure:
-				// captured by a closure that only runs synchronously and only loads/stores it
-				if depth > 0 || !closureOK(x) {
-					return false
-				}
 				fn, isFn := x.Fn.(*ssa.Function)
 				if !isFn {
+					return false
+				}
+				// captured by a closure that never writes it (nor lets it
+				// escape): wherever the closure ends up, the cell keeps the
+				// value this function gave it
+				ro := true
+				for i, b := range x.Bindings {
+					if b == v && (i >= len(fn.FreeVars) || !readOnlyCapture(fn.FreeVars[i], 0)) {
+						ro = false
+					}
+				}
+				if ro {
+					continue
+				}
+				// captured by a closure that only runs synchronously and only loads/stores it
+				if depth > 0 || !closureOK(x) {
 					return false
 				}
 				for i, b := range x.Bindings {
